@@ -522,6 +522,8 @@ def keyset_groups(tag):
 def c16_groups(tier):
     gs = alloc_groups('C16', tier)
     gs += keyset_groups('C16')
+    gs += c18_groups(tier, 'C16')                     # binary readers: every destination writable for the byte count requested
+    gs += [g for g in c17_groups(tier, 'C16') if 'write+read' in g.name or 'key+sample' in g.name]     # binary writers: every source readable for the byte count
     gs += boot_groups('C16')
     gs += [g for g in c08_groups(tier, 'C16') if 'translate' in g.name]      # bounded (real table) and unbounded-in-n (uniform table) variants
     dz = [g for g in c12_groups(tier, 'C16') if 'lemma' not in g.name]
@@ -551,7 +553,7 @@ ALPHAS = ['0x1p-15', '0x1p-25', '2.44e-5', '7.18e-9', '0.0']
 
 def enc_groups(tag):
     gs = [Group(tag + '.gaussian32', 'c03_encrypt.c', 'h_gaussian32', extract=[(NF, 'gaussian32', S_)], defines={'H_GAUSSIAN': None}),
-          Group(tag + '.lweKeyGen', 'c03_encrypt.c', 'h_lweKeyGen', extract=[(LF, 'lweKeyGen', S_)], loops=True, defines={'H_KEYGEN': None}),
+          Group(tag + '.lweKeyGen', 'c03_encrypt.c', 'h_lweKeyGen', extract=[(LF, 'lweKeyGen', S_)], loops=True, defines={'H_KEYGEN': None}, replay=('keygen', 'lwe')),
           Group(tag + '.gate_api_wiring', 'c03_encrypt.c', 'h_decrypt_wiring',
                 extract=[(LF, 'lweSymDecrypt'), (NF, 'modSwitchToTorus32'), (GB, 'bootsSymEncrypt'), (GB, 'bootsSymDecrypt')], defines={'H_DECRYPT': None})]
     for A in ALPHAS:
@@ -595,9 +597,9 @@ def c07_groups(tier, tag='C07'):
                         unwind=n_ * t_ * (1 << bb_) + 3, bounded=True, timeout=900, instance={'n': n_, 't': t_, 'basebit': bb_, 'alpha': 'symbolic in [0,1]'}))
     for K in ([1, 2] if tier == 'quick' else [1, 2, 3]):
         gs.append(Group('%s.tLweKeyGen.k=%d' % (tag, K), 'c03_encrypt.c', 'h_tLweKeyGen', extract=[(TL, 'tLweKeyGen', S_)], loops=True,
-                        defines={'H_TLWEKEYGEN': None, 'VERIF_K': K}, instance={'k': K}))
+                        defines={'H_TLWEKEYGEN': None, 'VERIF_K': K}, instance={'k': K}, replay=('keygen', 'tlwe')))
     gs.append(Group(tag + '.tGswKeyGen.k=1', 'c03_encrypt.c', 'h_tLweKeyGen', extract=[(TL, 'tLweKeyGen', S_), (TG, 'tGswKeyGen')], loops=True,
-                    defines={'H_TLWEKEYGEN': None, 'VERIF_K': 1, 'VIA_TGSW': None}, instance={'k': 1}))
+                    defines={'H_TLWEKEYGEN': None, 'VERIF_K': 1, 'VIA_TGSW': None}, instance={'k': 1}, replay=('keygen', 'tgsw')))
     gs.append(Group(tag + '.tGswSymEncrypt+tGswEncryptB', 'c03_encrypt.c', 'h_tGswWrappers', extract=[(TG, 'tGswSymEncrypt'), (TG, 'tGswEncryptB')], defines={'H_TGSWWRAP': None}))
     gs.append(Group(tag + '.new_random_gate_bootstrapping_secret_keyset', 'c03_encrypt.c', 'h_keysetgen',
                     extract=[(GBS, 'TFheGateBootstrappingCloudKeySet::TFheGateBootstrappingCloudKeySet'), (GBS, 'TFheGateBootstrappingSecretKeySet::TFheGateBootstrappingSecretKeySet'),
@@ -636,6 +638,11 @@ def c09_groups(tier, tag='C09'):
                         defines=dict(d, H_ADDMUH=None, VERIF_BGBIT={1: 8, 2: 10, 3: 7, 4: 8}[L]), gen={'rows2.inc': rows2}, timeout=1200, instance=dict(inst, Bgbit={1: 8, 2: 10, 3: 7, 4: 8}[L]), replay=('gadget', 'tGswAddMuH')))
         gs.append(Group('%s.rowwise.k=%d.l=%d' % (tag, K, L), 'c09_extprod.c', 'h_tgsw_rowwise',
                         extract=[(TGF, 'tGswToFFTConvert'), (TG, 'tGswClear'), (TG, 'tGswMulByXaiMinusOne')], defines=dict(d, H_CONVERT=None), unwind=U, instance=inst))
+    TLF = 'tlwe-fft-operations.cpp'
+    for K in ([1, 2] if tier == 'quick' else [1, 2, 3]):
+        gs.append(Group('%s.tlwe_rowwise.k=%d' % (tag, K), 'c09_extprod.c', 'h_tlwe_rowwise',
+                        extract=[(TLF, 'tLweToFFTConvert'), (TLF, 'tLweFromFFTConvert'), (TLF, 'tLweFFTClear'), (TLF, 'tLweFFTAddMulRTo'), (TL, 'tLweAddMulRTo'), (TF, 'intPolynomialNormSq2')],
+                        defines={'H_TLWEROW': None, 'VERIF_K': K}, unwind=max(K + 3, 6), instance={'k': K}))
     gs.append(Group(tag + '.tGswNoiselessTrivial', 'c09_extprod.c', 'h_tGswNoiselessTrivial', extract=[(TG, 'tGswNoiselessTrivial')], defines={'H_TRIVIAL': None}))
     for (L, B) in ([(3, 7), (2, 10), (4, 8)] if tier == 'quick' else [(l, b) for (l, b) in valid_layouts() if l <= 8]):
         for M in ['1', '3', '(-1)']:
@@ -651,18 +658,18 @@ IO = 'tfhe_io.cpp'
 
 
 def c18_groups(tier, tag='C18'):
-    gs = [Group(tag + '.read_lweSample+lweKey', 'c18_readers.c', 'h_read_lwe', extract=[(IO, 'read_lweSample'), (IO, 'read_lweKey_content')], defines={'H_LWE': None}, timeout=1200)]
+    gs = [Group(tag + '.read_lweSample+lweKey', 'c18_readers.c', 'h_read_lwe', extract=[(IO, 'read_lweSample'), (IO, 'read_lweKey_content')], defines={'H_LWE': None}, timeout=1200, replay='io')]
     for (K, L) in ([(1, 2), (2, 2)] if tier == 'quick' else [(1, 1), (1, 2), (1, 3), (2, 2), (2, 3), (3, 2)]):
         d = {'VERIF_K': K, 'VERIF_L': L}
         inst = {'k': K, 'l': L}
         gs.append(Group('%s.read_tLweSample+keys.k=%d.l=%d' % (tag, K, L), 'c18_readers.c', 'h_read_tlwe',
-                        extract=[(IO, 'read_tLweSample'), (IO, 'read_tLweKey_content'), (IO, 'read_tGswKey_content')], defines=dict(d, H_TLWE=None), unwind=K + 3, timeout=1200, instance=inst))
+                        extract=[(IO, 'read_tLweSample'), (IO, 'read_tLweKey_content'), (IO, 'read_tGswKey_content')], defines=dict(d, H_TLWE=None), unwind=K + 3, timeout=1200, instance=inst, replay='io'))
         gs.append(Group('%s.read_tGswSample.k=%d.l=%d' % (tag, K, L), 'c18_readers.c', 'h_read_tgsw', extract=[(IO, 'read_tLweSample'), (IO, 'read_tGswSample')],
-                        defines=dict(d, H_TGSW=None), unwind=(K + 1) * L + 3, timeout=1200, instance=inst))
+                        defines=dict(d, H_TGSW=None), unwind=(K + 1) * L + 3, timeout=1200, instance=inst, replay='io'))
         gs.append(Group('%s.read_LweBootstrappingKey_content.k=%d.l=%d' % (tag, K, L), 'c18_readers.c', 'h_read_bk', extract=[(IO, 'read_LweBootstrappingKey_content')],
-                        defines=dict(d, H_BK=None), unwind=(K + 1) * L + 3, timeout=1200, instance=dict(inst, n=2)))
+                        defines=dict(d, H_BK=None), unwind=(K + 1) * L + 3, timeout=1200, instance=dict(inst, n=2), replay='io'))
     gs.append(Group(tag + '.read_lweKeySwitchKey_content', 'c18_readers.c', 'h_read_ks', extract=[(IO, 'read_lweKeySwitchKey_content')], defines={'H_KS': None}, unwind=10,
-                    timeout=1200, instance={'n': 2, 't': 2, 'basebit': 1}))
+                    timeout=1200, instance={'n': 2, 't': 2, 'basebit': 1}, replay='io'))
     return gs
 
 
